@@ -59,7 +59,22 @@ def recheck(sid, props):
         subprocess.run(['rm', '-rf', wt])
 
 
+def recheck_all(only=None):
+    """Every confirmed seed against the check of the property it breaks and every check it was ever run against."""
+    import glob
+    for mp in sorted(glob.glob(os.path.join(ROOT, 'seeded', '*', 'meta.json'))):
+        meta = json.load(open(mp))
+        sid = os.path.basename(os.path.dirname(mp))
+        if only and not any(sid.startswith(o) for o in only):
+            continue
+        props = sorted(set(meta.get('checks_run_against_it', {})) | {meta.get('breaks_property') or meta.get('property')})
+        recheck(sid, [p for p in props if p])
+    return 0
+
+
 def main():
+    if sys.argv[1] == '--recheck-all':
+        return recheck_all(sys.argv[2].split(',') if len(sys.argv) > 2 else None)
     if sys.argv[1] == '--recheck':
         return recheck(sys.argv[2], sys.argv[3].split(','))
     mdir, sid, props = sys.argv[1], sys.argv[2], sys.argv[3].split(',')
